@@ -1074,34 +1074,32 @@ class CSSSerializer:
             out = Out(self)
             if value.type in ('DIMENSION', 'NUMBER', 'PERCENTAGE'):
                 dim = value.dimension or ''
-                if value.value == 0:
-                    val = '0'
-                    if value.dimension in (
-                        'cm',
-                        'mm',
-                        'in',
-                        'px',
-                        'pc',
-                        'pt',
-                        'em',
-                        'ex',
-                    ):
-                        dim = ''
-                elif value.value == int(value.value):
+                if value.value == int(value.value):
                     # cut off after . which is zero anyway
                     val = str(int(value.value))
-                elif self.prefs.omitLeadingZero and -1 < value.value < 1:
-                    v = self._strip_zeros('%f' % value.value)  # issue #27
-                    val = v
-                    if value._sign == '-':
-                        val = v[0] + v[2:]
-                    else:
-                        val = v[1:]
                 else:
-                    val = self._strip_zeros('%f' % value.value)  # issue #27
+                    # issue #27, what is written is what will be read again
+                    val = ('%f' % value.value).rstrip('0').rstrip('.')
+                    if val == '-0':
+                        val = '0'
+                    elif self.prefs.omitLeadingZero and val.lstrip('-').startswith(
+                        '0.'
+                    ):
+                        val = val.replace('0.', '.', 1)
+                if val == '0' and value.dimension in (
+                    'cm',
+                    'mm',
+                    'in',
+                    'px',
+                    'pc',
+                    'pt',
+                    'em',
+                    'ex',
+                ):
+                    dim = ''
 
                 # keep '+' if given
-                if value.value != 0 and value._sign == '+':
+                if val != '0' and value._sign == '+':
                     sign = '+'
                 else:
                     sign = ''
